@@ -15,6 +15,7 @@ from gv.astutil import norm_stmt
 from gv.astutil import stmts_of
 from gv.astutil import walk_body
 from gv.cfg import cfg_of
+from gv.props.shared import unfolded
 from gv.props import describe
 from gv.props.shared import branch_conditions
 from gv.report import Ctx
@@ -401,8 +402,9 @@ def check_newton_parity(ctx: Ctx) -> None:
     pm = m.args.args[1].arg
     ok = len(lin) == 1 and dotted(lin[0].args[0]) == pm and len(cs) == 1 and dotted(cs[0].args[0]) == pm and cfg_of(m).dominates(cfg_of(m).node_of(lin[0]), cfg_of(m).node_of(cs[0]))
     ctx.ob("6.5-linearize-at-snapshot", cname(NR, "MDANewtonRaphson", "__compute_newton_step"), ok, "the disciplines must be linearised at the given data before the Newton system is assembled with the same data", node=(lin or [m])[0])
-    kw = {k.arg: dotted(k.value) for k in cs[0].keywords} if cs else {}
-    ok = kw.get("residuals") == "self.get_current_resolved_residual_vector()" or (cs and any(k.arg == "residuals" and isinstance(k.value, ast.Call) and last_attr(k.value) == "get_current_resolved_residual_vector" for k in cs[0].keywords))
+    rv = kwarg(cs[0], "residuals") if cs else None
+    rv_alts = (unfolded(m, rv) or [rv]) if rv is not None else []
+    ok = bool(rv_alts) and all(isinstance(a_, ast.Call) and last_attr(a_) == "get_current_resolved_residual_vector" for a_ in rv_alts)
     ctx.ob("6.5-newton", cname(NR, "MDANewtonRaphson", "__compute_newton_step"), bool(ok), "the Newton system must be solved for the residual vector just computed", node=(cs or [m])[0], stmt="residuals=current residual vector")
 
 
